@@ -8,7 +8,8 @@ CONSTANTS
  CleanSet = {2}
  UseCache = TRUE
  ForeignCached = {}
+ PublishEarly = FALSE
  CacheKeyIgnoresPrefix = FALSE
  WithReader = TRUE
-INVARIANTS SuccessImpliesAllReachableStored NoWriteInFlightAtReturn ErrorsSurface FailureLeavesTreeUsable NoSkipAcrossStores GateRespected PublishedObjectsAreFrozen NoInPlaceEditOfPublished
+INVARIANTS CacheImpliesStored SuccessImpliesAllReachableStored NoWriteInFlightAtReturn ErrorsSurface FailureLeavesTreeUsable NoSkipAcrossStores GateRespected PublishedObjectsAreFrozen NoInPlaceEditOfPublished
 CHECK_DEADLOCK FALSE
